@@ -180,7 +180,7 @@ theorem openElement_ns {b : Builder} {frames : List (List (Str × Str))} (hr : R
       (((declIds b.env (declsOf attrs)).1.internNamespace u).1.internName loc.text
         ((declIds b.env (declsOf attrs)).1.internNamespace u).2).1 :=
     (internNamespace_app _ u).trans (internName_app _ loc.text _)
-  obtain ⟨hw1, _, hw2, hw3, hw4⟩ := hw
+  obtain ⟨hw1, _, hw2, hw3, hw4, _⟩ := hw
   obtain ⟨st', hst, he, hk, hs⟩ := addAttributes_ns (declsOf attrs :: frames)
     (b.curPath ++ [b.cur.rkids.length]) (ordinary attrs)
     { env := (((declIds b.env (declsOf attrs)).1.internNamespace u).1.internName loc.text
@@ -227,7 +227,7 @@ theorem run_close_ns {b : Builder} {frames : List (List (Str × Str))} (hr : Rea
     (ek : Env) (tk : List Tree) (seenk : List Str) (idnk : List (Str × Path)) (spk : SpanMap)
     (hext : EnvApp (b.openedNs wp ns loc decls nattrs idn0 sp0).env ek)
     (cpfx cloc : StrSpan) (closeSp : StrSpan) (hcp : cpfx.text = wp) (hc : cloc.text = loc)
-    (hl : ((flatScope frames).push decls).lookup cpfx.text = some ns)
+    (hl : ((flatScope frames).push decls).lookup cpfx.text = some ns) (hbc : cpfx.bareColon = false)
     (rest : List Token) (lexErr : Option Nat) :
     ∃ sp, ((b.openedNs wp ns loc decls nattrs idn0 sp0).emitNs ek tk seenk idnk spk).run
         (.elementEnd (.close cpfx cloc) closeSp :: rest) lexErr =
@@ -258,7 +258,7 @@ theorem run_close_ns {b : Builder} {frames : List (List (Str × Str))} (hr : Rea
     simp only [encodeDecls, hrn0] at this
     exact this
   refine ⟨spk.add ⟨(b.openedNs wp ns loc decls nattrs idn0 sp0).curPath, .elementEnd⟩ closeSp.span, ?_⟩
-  simp only [Builder.run, Builder.step]
+  simp only [Builder.run, Builder.step, hbc, Bool.false_eq_true, if_false]
   have hstep : ((b.openedNs wp ns loc decls nattrs idn0 sp0).emitNs ek tk seenk idnk spk).closeElement cpfx cloc closeSp =
       .ok (b.emitNs ek [.node (.element (((encodeDecls b.env decls).1.internNamespace ns).1.internName loc
           ((encodeDecls b.env decls).1.internNamespace ns).2).2)
